@@ -1,5 +1,4 @@
-import VlsModel.Lemmas.Policy
-import VlsModel.Model.MutualClose
+import VlsModel.Lemmas.MutualClose
 /-
 C07 — Mutual close pays the holder its due to an owned or allowlisted destination.
 
@@ -44,20 +43,12 @@ def mutualTags : List Tag :=
 
 def NonPermissive (p : Policy) : Prop := ∀ t ∈ mutualTags, errs p t = true
 
-theorem closeWeight_pos (a : Args) : 0 < closeWeight a := by
-  simp only [closeWeight]; omega
-
 theorem outsideEps_false {p : Policy} {x y : Nat} (h : outsideEps p x y = false) : Within p.epsilon x y := by
   unfold outsideEps at h
   unfold Within
   split at h
   · have := of_decide_eq_false h; omega
   · have := of_decide_eq_false h; omega
-
-theorem htlcsEmpty_iff (i : Info) (h : i.htlcsEmpty = true) : i.offered = [] ∧ i.received = [] := by
-  unfold Info.htlcsEmpty at h
-  simp at h
-  exact h
 
 /-- core: `validate_mutual_close_tx` accepts only `CloseOK` requests -/
 theorem validateMutualClose_ok (p : Policy) (s : Setup) (e : EState) (a : Args)
@@ -126,34 +117,6 @@ theorem C07_main_partial (p : Policy) (s : Setup) (e e' : EState) (a : Args)
   unfold signClose2 at h
   obtain ⟨_, h1, _⟩ := bind_ok h
   exact validateMutualClose_ok p s e a hf hmax hw h1
-
-/-- the reading that phase 1 signs is one of the two candidate readings and passed `validate_mutual_close_tx` -/
-theorem chooseAssignment_ok (p : Policy) (s : Setup) (e : EState) (outs : List Out) (a : Args)
-    (h : chooseAssignment p s e outs = .ok a) :
-    validateMutualClose p s e a = .ok () ∧ ∃ l u, candidates p e outs = some (l, u) ∧ (a = l ∨ a = u) := by
-  unfold chooseAssignment at h
-  cases hc : candidates p e outs with
-  | none => simp [hc] at h
-  | some pr =>
-    obtain ⟨l, u⟩ := pr
-    simp only [hc] at h
-    cases hl : validateMutualClose p s e l with
-    | ok v =>
-      cases v
-      simp only [hl] at h
-      cases h
-      exact ⟨hl, _, _, rfl, Or.inl rfl⟩
-    | error k =>
-      simp only [hl] at h
-      cases hu : validateMutualClose p s e u with
-      | ok v =>
-        cases v
-        simp only [hu] at h
-        cases h
-        exact ⟨hu, _, _, rfl, Or.inr rfl⟩
-      | error k2 =>
-        simp only [hu] at h
-        cases h
 
 /-- **C07 (both entry points)**: whatever phase 1 (`decode_and_validate_mutual_close_tx`) accepts, phase 2
     (`validate_mutual_close_tx`) accepts for the chosen assignment. -/
